@@ -71,6 +71,11 @@ def stepLine (line : String) : String :=
       | some raw => "raw=" ++ showBytes raw ++ ";back=" ++ (if (if isChunked r.fields then parseRawChunked raw else parseRaw raw) = some r then "same" else "differs")
       | none => "error"
     | _, _, _, _, _, _, _ => "bad-op"
+  | "sent" :: args =>
+    -- curl's reading of each -H argument: the line it puts on the wire, or `none`
+    match args.mapM hexOr with
+    | some as => if as.isEmpty then "-" else ",".intercalate (as.map fun a => match sentHeader a with | some l => showBytes l | none => "none")
+    | none => "bad-op"
   | ["url", sch, host, port, path] =>
     -- ASCII only: bytes are code points
     match hexOr sch, hexOr host, port.toNat?, hexOr path with
